@@ -255,6 +255,8 @@ pub struct Cfg<'a> {
     pub n_quick: usize,
     pub n_thorough: usize,
     pub tune: &'a (dyn Fn(&mut Profile) + Sync),
+    /// a further engine that adds its cases to the same evidence record (C03: SOAP envelopes as roots)
+    pub also: Option<&'a (dyn Fn(&mut Evidence, &Findings, Tier) + Sync)>,
 }
 
 pub fn run_with(tier: Tier, cfg: &Cfg) -> i32 {
@@ -365,6 +367,9 @@ pub fn run_with(tier: Tier, cfg: &Cfg) -> i32 {
         ev.inconclusive = Some(format!("only {judged} of {} cases produced values that could be judged", cases.len()));
     }
     let _ = std::fs::remove_dir_all(&scratch);
+    if let Some(also) = cfg.also {
+        also(&mut ev, &findings, tier);
+    }
     ev.finish()
 }
 
